@@ -5,7 +5,7 @@ use std::{
     ops::Range,
     sync::{
         atomic::{AtomicU64, Ordering},
-        Mutex,
+        Arc, Mutex,
     },
 };
 
@@ -60,18 +60,19 @@ pub trait Instrumented: Problem<Objective = SingleObjective> + ObjectiveFunction
 }
 
 // ------------------------------------------------------------------ real-valued
+#[derive(Clone)]
 pub struct RealProblem {
     pub lo: f64,
     pub hi: f64,
     pub dim: usize,
     /// 0 = sphere, 1 = shifted multimodal
     pub kind: u8,
-    pub stats: Stats,
+    pub stats: Arc<Stats>,
 }
 
 impl RealProblem {
     pub fn new(kind: u8, dim: usize, lo: f64, hi: f64) -> Self {
-        Self { lo, hi, dim, kind, stats: Stats::default() }
+        Self { lo, hi, dim, kind, stats: Arc::new(Stats::default()) }
     }
 }
 
@@ -121,13 +122,14 @@ impl ObjectiveFunction for RealProblem {
 }
 
 // ------------------------------------------------------------------ bit strings (minimise number of zeros)
+#[derive(Clone)]
 pub struct BitProblem {
     pub dim: usize,
-    pub stats: Stats,
+    pub stats: Arc<Stats>,
 }
 impl BitProblem {
     pub fn new(dim: usize) -> Self {
-        Self { dim, stats: Stats::default() }
+        Self { dim, stats: Arc::new(Stats::default()) }
     }
 }
 impl Problem for BitProblem {
@@ -163,10 +165,11 @@ impl ObjectiveFunction for BitProblem {
 }
 
 // ------------------------------------------------------------------ permutations / TSP
+#[derive(Clone)]
 pub struct TspProblem {
     pub dim: usize,
     pub dist: Vec<Vec<f64>>,
-    pub stats: Stats,
+    pub stats: Arc<Stats>,
 }
 impl TspProblem {
     /// kind 0: points on a line (symmetric); 1: asymmetric; 2: very unequal distances (1e-3 .. 1e6)
@@ -185,7 +188,7 @@ impl TspProblem {
                 };
             }
         }
-        Self { dim, dist, stats: Stats::default() }
+        Self { dim, dist, stats: Arc::new(Stats::default()) }
     }
 }
 impl Problem for TspProblem {
